@@ -2,9 +2,11 @@ package rules
 
 import (
 	"fmt"
+
 	"go/constant"
 	"go/token"
 	"go/types"
+	"pv/internal/lin"
 	"sort"
 	"strings"
 
@@ -138,6 +140,13 @@ func (c *Ctx) ruleR10ab(ra, rb string) {
 	}
 	covered := map[string]bool{}
 	errVars := map[string]string{}
+	// "the cursor at which the run started" as a linear form: pos - File.offset (whatever helper computes it)
+	lf := c.linFn(fn)
+	startForm := lin.Atom(posP.Name()).Sub(lin.Atom(c.offsetAtom(fn.Params[0].Name())))
+	isStartCursor := func(v ssa.Value, _ *ssa.Parameter) bool {
+		d := lf.Norm(v).Sub(startForm)
+		return d.IsConst() && d.K == 0
+	}
 	for _, r := range ssax.Returns(fn) {
 		if len(r.Results) != 2 {
 			continue
@@ -227,30 +236,31 @@ func (c *Ctx) ruleR10ab(ra, rb string) {
 			c.R.Hold(ra, name+" mode "+m, "never an error")
 		}
 	}
-	// R10b alphabet
+	// R10b alphabet: fold the loop's conditions for each of the 256 byte values
 	loopHead := curPhi.Block()
 	all, nl := map[int64]bool{}, map[int64]bool{}
-	for _, b := range fn.Blocks {
-		if !(loopHead.Dominates(b) && ssax.Reaches(b, loopHead, true)) {
-			continue
+	var markBlock *ssa.BasicBlock
+	for _, e := range marker.Edges {
+		for _, l := range ssax.Leaves(e) {
+			if l == ssa.Value(marker) {
+				continue
+			}
+			if _, isC := l.(*ssa.Const); isC {
+				continue
+			}
+			if in, ok := l.(ssa.Instruction); ok {
+				markBlock = in.Block()
+			}
 		}
-		ifi, ok := b.Instrs[len(b.Instrs)-1].(*ssa.If)
-		if !ok {
-			continue
+	}
+	isByte := func(v ssa.Value) bool { return isByteAtCursor(v, curPhi) }
+	for v := int64(0); v < 256; v++ {
+		o := loopByteOutcome(loopHead, isByte, v, markBlock)
+		if o.continues && !o.rejected {
+			all[v] = true
 		}
-		op, x, y, isCmp := ssax.CmpOp(ifi.Cond)
-		if !isCmp || op != token.EQL {
-			continue
-		}
-		k, isC := ssax.ConstInt(y)
-		if !isC || !isByteAtCursor(x, curPhi) {
-			continue
-		}
-		// a test in the loop condition chain decides continuation; one in the body decides the marker
-		if inLoopCondition(b, loopHead, curPhi) {
-			all[k] = true
-		} else {
-			nl[k] = true
+		if o.marks {
+			nl[v] = true
 		}
 	}
 	wantAll := map[int64]bool{0x20: true, 0x09: true, 0x0A: true, 0x0C: true}
@@ -349,23 +359,6 @@ func setStr(a map[int64]bool) string {
 	return "{" + strings.Join(s, ", ") + "}"
 }
 
-// isStartCursor: v is int(pos) - file.offset for the pos parameter.
-func isStartCursor(v ssa.Value, posP *ssa.Parameter) bool {
-	b, ok := v.(*ssa.BinOp)
-	if !ok || b.Op != token.SUB {
-		return false
-	}
-	if ct, ok := b.X.(*ssa.ChangeType); ok && ct.X == ssa.Value(posP) {
-		_, f, isLoad := fieldLoad(b.Y)
-		return isLoad && f == theModel.Offset
-	}
-	if cv, ok := b.X.(*ssa.Convert); ok && cv.X == ssa.Value(posP) {
-		_, f, isLoad := fieldLoad(b.Y)
-		return isLoad && f == theModel.Offset
-	}
-	return false
-}
-
 // isByteAtCursor: v is file.data[cur].
 func isByteAtCursor(v ssa.Value, cur *ssa.Phi) bool {
 	u, ok := v.(*ssa.UnOp)
@@ -378,50 +371,6 @@ func isByteAtCursor(v ssa.Value, cur *ssa.Phi) bool {
 	}
 	_, f, isLoad := fieldLoad(ia.X)
 	return isLoad && f == theModel.Data
-}
-
-// inLoopCondition: block b belongs to the chain of tests that decide whether the loop continues: from b a
-// false outcome can leave the loop without passing the increment of the cursor.
-func inLoopCondition(b, head *ssa.BasicBlock, cur *ssa.Phi) bool {
-	// the increment block: the one defining the back-edge value of cur
-	var inc *ssa.BasicBlock
-	for i, e := range cur.Edges {
-		if head.Dominates(head.Preds[i]) {
-			if in, ok := e.(ssa.Instruction); ok {
-				inc = in.Block()
-			}
-		}
-	}
-	if inc == nil {
-		return false
-	}
-	// in the condition chain, the block is not dominated by the loop body entry (the first block after all tests).
-	// Equivalent and simpler: b can reach a loop exit without passing inc, and b is not reachable from the body entry
-	// the body entry is the unique successor common to all true outcomes: the block that dominates inc and is not a test
-	for _, s := range b.Succs {
-		if !head.Dominates(s) || !ssax.Reaches(s, head, true) {
-			return true // an edge leaving the loop directly
-		}
-	}
-	// tests whose both outcomes stay in the loop: part of the condition if some outcome leads to another test that can leave
-	seen := map[*ssa.BasicBlock]bool{}
-	var leaves func(x *ssa.BasicBlock) bool
-	leaves = func(x *ssa.BasicBlock) bool {
-		if seen[x] || x == inc {
-			return false
-		}
-		seen[x] = true
-		for _, s := range x.Succs {
-			if !head.Dominates(s) || !ssax.Reaches(s, head, true) {
-				return true
-			}
-			if s != head && leaves(s) {
-				return true
-			}
-		}
-		return false
-	}
-	return leaves(b)
 }
 
 // isWhitespaceErrVar: the global is initialised in init with parsley.NewWhitespaceError(...).
